@@ -147,13 +147,14 @@ def make(kind, u, a, absent):
         def meth(self, *args, **kw):
             _hit(kind, args, kw)
             return RET
+        meth.__name__ = meth.__qualname__ = "f"  # bound methods are copied/pickled by attribute name
         meth.vf_rec = True
         _flag(meth, u, a, absent)
         cls = type("M", (), {"f": classmethod(meth) if kind == "classmethod" else meth})
         o = cls()
         return o.f, o
-    elif kind in ("cobj", "cobj_clsflags", "cobj_ctx", "cobj_evalctx", "cobj_env"):
-        if kind == "cobj_ctx":
+    elif kind in ("cobj", "cobj_clsflags", "cobj_ctx", "cobj_ctx_clsflags", "cobj_evalctx", "cobj_env"):
+        if kind in ("cobj_ctx", "cobj_ctx_clsflags"):
             @pass_context
             def call(self, ctx, *args, **kw):
                 _hit(kind if isinstance(ctx, Context) else kind + ":NOCTX", args, kw)
@@ -173,10 +174,10 @@ def make(kind, u, a, absent):
                 _hit(kind, args, kw)
                 return RET
         ns = {"__call__": call, "vf_rec": True}
-        if kind == "cobj_clsflags":
+        if kind.endswith("_clsflags"):
             _flag(ns, u, a, absent)
         f = type("C", (), ns)()
-        if kind != "cobj_clsflags":
+        if not kind.endswith("_clsflags"):
             _flag(f, u, a, absent)
     elif kind == "cls":
         def new(cls, *args, **kw):
@@ -191,8 +192,9 @@ def make(kind, u, a, absent):
     return f, o
 
 
-KINDS = ["fn", "fn_ctx", "method", "classmethod", "cobj", "cobj_clsflags", "cobj_ctx", "cobj_evalctx", "cobj_env", "cls", "afn"]
-A_KINDS = ["fn", "method", "cobj", "cobj_ctx", "cobj_clsflags", "cls"]
+KINDS = ["fn", "fn_ctx", "method", "classmethod", "cobj", "cobj_clsflags", "cobj_ctx", "cobj_evalctx", "cobj_env", "cls", "afn",
+         "cobj_ctx_clsflags"]
+A_KINDS = ["fn", "method", "cobj_ctx", "cls", "cobj", "cobj_clsflags"]  # quick: the first four
 
 # ------------------------------------------------------------------------------------ reach forms
 # (name, source, calls when accepted, call attempted?)
@@ -317,7 +319,7 @@ FORMS = [
 FORM_BY_NAME = {f[0]: f for f in FORMS}
 SLICE_FORMS = ["direct", "attr_dot", "dict_sub", "set_alias", "macro_arg", "call_block_callee", "caller_is_f", "loop_var",
                "loop_body", "block_body", "include", "filter_arg_map", "test_arg", "nested_arg", "dead_and"]
-A_FORMS = ["direct", "attr_dot", "list_idx", "with_alias", "macro_arg", "call_block_callee", "loop_var", "filter_arg", "dead_or"]
+A_FORMS = ["direct", "attr_dot", "macro_arg", "call_block_callee", "loop_var", "filter_arg", "list_idx", "with_alias", "dead_or"]  # quick: the first six
 
 _TCACHE: dict = {}
 
@@ -474,12 +476,13 @@ def conditions(tier, seed):
                            [len(fc) // 2, 2, False, False, afree, xfree], [1 % len(fc), 9, True, False, False, xfree]],
                 bounds=f"forms {fc} x callable kinds {KINDS} x sync/async x unsafe_callable x "
                        f"{'alters_data' if afree else 'alters_data=False'} x {third if xfree else 'flags present'}"))
+    af, ak = (A_FORMS, A_KINDS) if th else (A_FORMS[:6], A_KINDS[:4])
     for policy in ("sandboxed", "override_only", "override_and"):
         out.append(Cond(
             f"flags symbolic through is_safe_callable[{policy}]", "flags_symbolic", mode="A",
-            param={"policy": policy, "forms": A_FORMS, "kinds": A_KINDS}, timeout=to,
+            param={"policy": policy, "forms": af, "kinds": ak}, timeout=to,
             witnesses=[[0, 0, False, True, False, True], [3, 3, True, False, False, False], [5, 2, False, False, True, True],
-                       [8, 1, True, True, True, False]],
-            bounds=f"forms {A_FORMS} x kinds {A_KINDS} x sync/async (decoded); unsafe_callable, alters_data and the "
+                       [4, 1, True, True, True, False]],
+            bounds=f"forms {af} x kinds {ak} x sync/async (decoded); unsafe_callable, alters_data and the "
                    f"override's policy bool are symbolic bools stored on the callable / consulted by the override"))
     return out
